@@ -104,15 +104,15 @@ TabMeaning(H, T) ==
 TabT == TLCEval([k \in 1..Len(HT) |-> TabMeaning(HT[k], Tab(HT[k]))])
 
 Exp(TM, S, D, RR) ==
-    [hdr |-> TM.hdr, wf |-> D.wf, merged |-> S.merged, end |-> S.end, rows |-> S.rows, dirs |-> TM.dirs, files0 |-> TM.files,
+    [hdr |-> TM.hdr, wf |-> D.wf, end |-> S.end, rows |-> S.rows, dirs |-> TM.dirs, files0 |-> TM.files,
      files |-> TM.files \o [k \in 1..Len(S.files) |-> FileMeaningDef(S.files[k])],
      seqs |-> [k \in 1..Len(RR) |-> [start |-> S.seqs[k].start, end |-> S.seqs[k].end, rows |-> RR[k].rows]]]
 
 (* design-level lemmas on one program *)
 Lemmas(H, S, D, RR) ==
     /\ AsCodedEqualsStd(S, D)
-    /\ (Monotone(S.rows) \/ S.merged) /\ InRange(S.rows, H.asz)
-    /\ (D.wf => ~S.merged)
+    /\ Monotone(S.rows) /\ InRange(S.rows, H.asz)
+    /\ (\A k \in 1..Len(RR) : Monotone(RR[k].rows) /\ InRange(RR[k].rows, H.asz))
     /\ SequencesConsistent(S, RR)
 
 (* hdr = EncHeaderBody(H, T), TM = TabMeaning(H, T), b = program bytes *)
